@@ -31,7 +31,7 @@ EXTRA_SLICES = ((0, 0), (2, 1), (-1, 0), (-2, -1), (-4, -1), (-1, -3), (3, 3), (
                 ("a", "b"), ("a", "a"), ("0", "b"), ("a", "z"), ("", "z"))
 EXTRA_IDX = (-9, -4, 4, 9)
 EXTRA_KEYS = ("0", "2", "7", "-1", "-2", "-4", "c")
-BAD_REGEX = ("[", "(", "*", "a{2", "\\")
+BAD_REGEX = ("[", "(", "*", "a{2", "\\", "a{99999999999}", "(?<=a+)b")
 
 KEYWORDS = (
     ("has_child", ("a", "b", "&x", "", "a,b", "1")),
